@@ -6,6 +6,9 @@
 //! ("REVM"). The inventory covers MVER, the MAOF offsets that point at MARE chunks (absolute file
 //! offsets), MWID name offsets into MWMO, the MWMO terminator and the id/flag words of the first
 //! MODF / MLDD / MLMD records.
+//!
+//! "wotlk-nomaof" is the writer's output for a map without tiles from which the MAOF chunk has been
+//! cut out (the writer always emits one; the parser treats it as optional).
 use crate::seed::{add_chunk_seq, Aux, Seed};
 use crate::worker::{errname, Runner};
 use std::io::Cursor;
@@ -21,6 +24,7 @@ pub fn seed_names(thorough: bool) -> Vec<String> {
         v.push("vanilla-mare".into());
         v.push("mop-wmo-dense".into());
         v.push("latest-empty".into());
+        v.push("wotlk-nomaof".into());
     }
     v
 }
@@ -78,6 +82,7 @@ fn model(name: &str) -> (WdlFile, WdlVersion) {
         "vanilla-mare" => (WdlVersion::Vanilla, vec![(0, 0), (7, 3), (63, 63)]),
         "mop-wmo-dense" => (WdlVersion::Mop, (0..24u32).map(|i| ((i * 5) % 64, (i * 11) % 64)).collect()),
         "latest-empty" => (WdlVersion::Latest, vec![]),
+        "wotlk-nomaof" => (WdlVersion::Wotlk, vec![]),
         _ => wverif_common::tool_error(&format!("wdl: unknown seed {name}")),
     };
     let mut f = WdlFile::with_version(ver);
@@ -113,7 +118,14 @@ pub fn build(name: &str) -> Seed {
     let (file, ver) = model(name);
     let mut out = Cursor::new(Vec::new());
     WdlParser::with_version(ver).write(&mut out, &file).expect("WdlParser::write");
-    let bytes = out.into_inner();
+    let mut bytes = out.into_inner();
+    if name == "wotlk-nomaof" {
+        // byte surgery: remove the (all-zero) MAOF chunk; no MARE chunk exists that it could point at
+        let ch = crate::seed::walk_chunks(&bytes, 0, bytes.len());
+        let &(o, tot) = ch.iter().find(|c| &bytes[c.0..c.0 + 4] == b"FOAM").expect("MAOF chunk");
+        assert!(bytes[o + 8..o + tot].iter().all(|&b| b == 0), "MAOF of a map without tiles is not empty");
+        bytes.drain(o..o + tot);
+    }
     let len = bytes.len();
     let mut s = Seed::new("wdl", name, bytes);
     let chunks = add_chunk_seq(&mut s, "top", 0, len, vec![], true);
